@@ -15,12 +15,12 @@ const (
 )
 
 var ledgerFields = map[string]bool{
-	"staking/api.GeneralAccount.Balance":        true,
-	"staking/api.SharePool.Balance":             true,
-	"staking/api.SharePool.TotalShares":         true,
-	"staking/api.Delegation.Shares":             true,
-	"staking/api.DebondingDelegation.Shares":    true,
-	pkStakeState + ".feeAccumulator.balance":    true,
+	"staking/api.GeneralAccount.Balance":     true,
+	"staking/api.SharePool.Balance":          true,
+	"staking/api.SharePool.TotalShares":      true,
+	"staking/api.Delegation.Shares":          true,
+	"staking/api.DebondingDelegation.Shares": true,
+	pkStakeState + ".feeAccumulator.balance": true,
 }
 
 // ledger getters and their setters (short method names on staking state)
@@ -79,6 +79,7 @@ func rulesC05(c *Ctx) {
 	c.Explain = append(c.Explain,
 		"C05 (supply conserved, share bookkeeping consistent) — decided: (a) LEDGER discipline: every in-place arithmetic on a ledger location (general balances, escrow pool balances and total shares, delegation shares, the block fee accumulator, common pool, total supply, last block fees, governance deposits) happens inside quantity.Move/MoveUpTo or SharePool.Deposit/Withdraw — the only primitives that debit and credit the same amount — or is a reviewed table row (explicit burn, share merge, CheckTx-only bookkeeping, genesis); (b) PAIR: in every function of the staking/governance/roothash applications and the staking state package, a ledger object obtained from its getter and then mutated is written back with its matching setter on every success exit and before the next load in a loop; fee persistence: disburseFeesP stores the carried-over fees on every success exit; (c) total supply is written only by the burn path and genesis, escrow total shares only by Deposit/Withdraw; (d) inside SharePool.Deposit/Withdraw the share amount added to / removed from the pool total is the very value added to / removed from the holder, and the stake moves through Move with the pool balance; (e) no staking transaction handler can fail after a ledger write (write-then-fail analysis restricted to ledger setters).",
 		"NOT decided: the arithmetic identities themselves (that computed reward/slash/fee splits sum to what is moved), supply equality at block boundaries over histories.")
+	c05Round2(c)
 	ix := c.P.BuildIndex()
 
 	// ---- (a) LEDGER discipline
@@ -437,4 +438,93 @@ func addrBaseIs(a ssa.Value, gv ssa.Value) bool {
 		}
 	}
 	return false
+}
+
+// c05Round2: rules added after the second round of seeds.
+func c05Round2(c *Ctx) {
+	// (1) slashing: the common pool is credited with exactly what left the two escrow pools
+	if fn := c.needFn("C05.slash", "consensus/cometbft/apps/staking/state.(*MutableState).SlashEscrow"); fn != nil {
+		sp := CallsTo(fn, "slashPool", "consensus/cometbft/apps/staking/state.slashPool", "")
+		var dsts []ssa.Value
+		for _, call := range sp.Calls() {
+			dsts = append(dsts, allArgs(call)[0])
+		}
+		ok := len(dsts) == 2
+		var credited ssa.Value
+		for _, call := range CallsTo(fn, "Move(commonPool ← slashed)", "common/quantity.Move", "").Calls() {
+			a := allArgs(call)
+			if strings.Contains(vstr(a[0]), ".CommonPool(") {
+				credited = a[2]
+			}
+		}
+		if ok && credited != nil {
+			// credited = clone(dst1) with exactly one Add(dst2) applied (either order of the two destinations)
+			cl, isCl := credited.(*ssa.Call)
+			ok = isCl && calleeNameCommon(&cl.Call) == "common/quantity.(*Quantity).Clone"
+			if ok {
+				base := cl.Call.Args[0]
+				ops, straight := quantityOps(fn, credited, nil)
+				other := dsts[0]
+				if base == dsts[0] {
+					other = dsts[1]
+				}
+				ok = straight && (base == dsts[0] || base == dsts[1]) && len(ops) == 1 && ops[0] == "Add("+vstr(other)+")"
+			}
+		} else {
+			ok = false
+		}
+		c.Check(ok, "C05.slash", fname(fn)+":common pool += what the active and debonding pools lost", c.P.Pos(fn.Pos()), "the amount credited to the common pool is the sum of the two amounts slashPool moved out of the pools", "the amount credited to the common pool on a slash is not the sum of what was actually taken from the active and the debonding pool (rounding of the pro-rata split would create or destroy base units)")
+	}
+	// (2) debonding completion deletes the delegation record under its own key (delegator, escrow, its end time)
+	if fn := c.needFn("C05.pair", "consensus/cometbft/apps/staking.(*Application).onEpochChange"); fn != nil {
+		sd := CallsArg(fn, "SetDebondingDelegation(nil)", "consensus/cometbft/apps/staking/state.(*MutableState).SetDebondingDelegation", 5, `^nil`)
+		ok := len(sd.Calls()) == 1
+		if ok {
+			a := allArgs(sd.Calls()[0])
+			ok = strings.HasSuffix(vstr(a[2]), ".DelegatorAddr") && strings.HasSuffix(vstr(a[3]), ".EscrowAddr") && strings.HasSuffix(vstr(a[4]), ".Delegation.DebondEndTime") && strings.Contains(vstr(a[4]), "ExpiredDebondingQueue(")
+		}
+		c.Check(ok, "C05.pair", fname(fn)+":completed debonding delegation removed under (delegator, escrow, its own end time)", c.P.Pos(fn.Pos()), "the record deleted is the one that was paid out", "the debonding delegation record deleted after the payout is not keyed by the entry's own (delegator, escrow, end time): completing an entry later than its end epoch leaves a record whose shares no longer exist in the pool")
+	}
+	// (3) the per-block fee accumulator lives in memory and is not rolled back with the transaction: once the fee has
+	// been moved into it, authentication can no longer be refused (only a storage failure may follow)
+	if fn := c.needFn("C05.accumulator", "consensus/cometbft/apps/staking/state.AuthenticateAndPayFees"); fn != nil {
+		var mv ssa.CallInstruction
+		for _, call := range CallsTo(fn, "Move(fee accumulator ← account)", "common/quantity.Move", "").Calls() {
+			if strings.Contains(vstr(allArgs(call)[0]), "feeAccumulator") {
+				mv = call
+			}
+		}
+		if mv == nil {
+			c.Fail("C05.accumulator", fname(fn)+":fee move", c.P.Pos(fn.Pos()), "the fee payment into the block fee accumulator was not found")
+		} else {
+			se, found := SuccessEdges(mv)
+			ok := found
+			var at ssa.Instruction
+			if found {
+				for _, r := range Returns(fn) {
+					ev := retErrVal(r)
+					if ev == nil || isNilConst(ev) {
+						continue
+					}
+					storage := strings.Contains(vstr(ev), ".SetAccount(")
+					for _, h := range heldCondVals(r) {
+						if strings.Contains(vstr(h.Cond), ".SetAccount(") && strings.HasSuffix(normCond(h.Cond, h.Pol), "!= nil") {
+							storage = true
+						}
+					}
+					if storage {
+						continue // storage failure: fatal for the node, not a rejected transaction
+					}
+					if Reach(fn, nil, se, isInstr(r), nil) != nil {
+						ok, at = false, r
+					}
+				}
+			}
+			site := c.P.InstrPos(mv)
+			if at != nil {
+				site = c.P.InstrPos(at)
+			}
+			c.Check(ok, "C05.accumulator", fname(fn)+":no rejection after the fee entered the block accumulator", site, "after the fee was credited to the in-memory accumulator only a storage failure can follow", "the transaction can still be rejected after its fee was credited to the in-memory block fee accumulator, which is not rolled back: the accumulator keeps a fee the account was never debited for and EndBlock disburses it")
+		}
+	}
 }
